@@ -830,7 +830,7 @@ func (m c01) cliPipe(c *fw.Ctx, ws [][]byte) {
 		{[]string{"rotate", "zz_no_such_key"}, true, false}, {[]string{"insert", "zz_no_such_key", "@acgt"}, true, false}, {[]string{"insert", "gene", "@acgt"}, true, false},
 		{[]string{"define", "misc_feature", "1..1"}, true, false}, {[]string{"search", "@acg"}, true, false},
 		{[]string{"define", "misc_feature", "1..1", "-q", "note=ratio a=b, c=d", "-q", "gene=x/y"}, true, false}, {[]string{"search", "@acg", "-q", "note=k=v"}, true, false},
-		{[]string{"extract", "gene"}, false, false}, {[]string{"split", "gene"}, false, false}, {[]string{"join"}, false, false}, {[]string{"pick", "0"}, false, false},
+		{[]string{"extract", "gene"}, false, false}, {[]string{"split", "gene"}, false, false}, {[]string{"join"}, false, false}, {[]string{"pick", "1"}, false, false},
 	}
 	seconds := [][]string{{"clear"}, {"sort"}, {"complement"}, {"reverse"}}
 	for i, w := range ws {
